@@ -367,13 +367,42 @@ fn main() {
         .ok()
         .and_then(|s| s.parse().ok())
         .unwrap_or(check.tier.pick(20_000u32, 400_000)); // C17_CASES: development override only
-    let (max_rows, big_rows) = (300usize, check.tier.pick(1_000usize, 10_000));
+    let max_rows = 300usize;
+    let tail = check.tier.pick(1_000usize, 2_000);
     pt::run(
         &check,
         "c17-random",
         cases,
         pt::Opts::default(),
-        || tablegen::params(max_rows, big_rows, i32_keys_in_random),
+        || tablegen::params(tablegen::rows_small(max_rows, tail), max_rows, i32_keys_in_random),
+        |p| build(p).to_json(),
+        |p| {
+            let t = build(p);
+            run_table(&ctx, &t)
+        },
+    );
+
+    // 3. large tables (up to 10^4 records, at most 8 columns), a separately budgeted volume
+    let large = std::env::var("C17_LARGE")
+        .ok()
+        .and_then(|s| s.parse().ok())
+        .unwrap_or(check.tier.pick(32u32, 1_600));
+    pt::run(
+        &check,
+        "c17-large",
+        large,
+        pt::Opts {
+            max_shrink_iters: 300,
+            ..pt::Opts::default()
+        },
+        || {
+            use proptest::prelude::*;
+            tablegen::params(
+                prop_oneof![3 => 1_000usize..4_000, 1 => 4_000usize..=10_000].boxed(),
+                max_rows,
+                i32_keys_in_random,
+            )
+        },
         |p| build(p).to_json(),
         |p| {
             let t = build(p);
